@@ -48,7 +48,7 @@ Decide(D, src, l, p, e) ==
        [] k = "skip_res_skip" -> IF sel < 3 THEN skip ELSE errc
        [] k = "any_tok"       -> IF sel % 2 = 0 THEN emitu ELSE alt
        [] k = "any_res"       -> IF sel = 0 THEN emitu ELSE IF sel = 1 THEN alt ELSE errc
-       [] k = "any_filter"    -> IF sel % 2 = 0 THEN emitu ELSE skip
+       [] k = "any_filter"    -> IF sel = 0 THEN emitu ELSE IF sel = 2 THEN alt ELSE skip
        [] k = "any_fr"        -> IF sel = 0 THEN emitu ELSE IF sel = 1 THEN alt ELSE IF sel = 2 THEN skip ELSE errc
 
 (* the whole run from offset p: items and the callback invocation log *)
